@@ -30,6 +30,21 @@ template <class T, size_t... D> void op_map_scalar(Ctx &c) {
     auto a = mkmap<T, D...>(c, 0, false), o = mkmap<T, D...>(c, 1, true);
     c.run([&] { o = a * (T)2; o += (T)1; o -= (T)3; o *= (T)2; o /= (T)2; });
 }
+// complex element types: no scalar compound operators (they do not compile for complex maps)
+template <class T, size_t... D> void op_map_cx(Ctx &c) {
+    auto a = mkmap<T, D...>(c, 0, false), b = mkmap<T, D...>(c, 1, false), o = mkmap<T, D...>(c, 2, true);
+    uint32_t w = c.p1() % 4;
+    typename T::value_type r = 0;
+    c.run([&] {
+        switch (w) {
+        case 0: o = a + b * a - b; break;
+        case 1: o += a; o -= b; o *= a; o /= b; break;
+        case 2: { o = a * (T)2; Tensor<T, D...> t(a); t += b; o = t; } break;
+        default: { T s = a.sum(); r = s.real() + s.imag(); o = a - b; }
+        }
+    });
+    c.retv(r);
+}
 template <class T, size_t... D> void op_map_methods(Ctx &c) {
     auto o = mkmap<T, D...>(c, 0, true);
     uint32_t w = c.p1() % 5;
